@@ -18,6 +18,7 @@ from contextlib import redirect_stdout
 
 from . import refvm
 from .common import ncpu, seed
+from .watchdog import Timeout, limit
 
 
 def _fk():
@@ -277,15 +278,19 @@ def explore(cfg: Config, root, max_depth, collect_frontier_at=None):
             nops = sum(cfg.alphabet[i].nops for i in seq)
             # fickling on the same prefix, through the real parser
             try:
-                p = fk.Pickled.load(data + b".")
-                interp = fk.Interpreter(p)
-                if len(p) != nops + 1:
-                    raise AssertionError(f"parser produced {len(p)} opcodes for {nops + 1}")
-                for _ in range(nops):
-                    interp.step()
+                with limit(60):
+                    p = fk.Pickled.load(data + b".")
+                    interp = fk.Interpreter(p)
+                    if len(p) != nops + 1:
+                        raise AssertionError(f"parser produced {len(p)} opcodes for {nops + 1}")
+                    for _ in range(nops):
+                        interp.step()
                 f_ok = True
             except RecursionError:
                 f_ok = False
+            except Timeout as e:
+                f_ok = False
+                _unexpected(cfg, out, e, cfg.labels(seq), data, len(seq))
             except Exception as e:  # noqa: BLE001
                 f_ok = False
                 out.outcomes.add(("refused", type(e).__name__))
@@ -300,9 +305,10 @@ def explore(cfg: Config, root, max_depth, collect_frontier_at=None):
             broken = False
             for orc in cfg.step_oracles:
                 try:
-                    if orc(cfg, seq, data, vm, interp, p, out):
-                        broken = True
-                except Exception as e:  # noqa: BLE001 - unexpected behaviour of the code under test, not a harness crash
+                    with limit(60):
+                        if orc(cfg, seq, data, vm, interp, p, out):
+                            broken = True
+                except (Exception, Timeout) as e:  # noqa: BLE001 - unexpected behaviour of the code under test, not a harness crash
                     _unexpected(cfg, out, e, cfg.labels(seq), data, len(seq))
             if broken:
                 # the two machines have diverged; every extension only restates this divergence
@@ -313,8 +319,9 @@ def explore(cfg: Config, root, max_depth, collect_frontier_at=None):
                 term = Term(cfg, seq, data + b".")
                 for orc in cfg.term_oracles:
                     try:
-                        orc(term, out)
-                    except Exception as e:  # noqa: BLE001
+                        with limit(120):
+                            orc(term, out)
+                    except (Exception, Timeout) as e:  # noqa: BLE001
                         _unexpected(cfg, out, e, cfg.labels(seq) + ["STOP"], data + b".", len(seq))
                 if len(out.samples) < 2 and len(seq) >= 3:
                     out.samples.append({"program": cfg.labels(seq) + ["STOP"], "bytes_hex": (data + b".").hex()})
@@ -372,17 +379,20 @@ def run(cfg, report=None, time_cap=None):
         # seed rotates dispatch order only
         s = seed() % max(1, len(roots))
         roots = roots[s:] + roots[:s]
-        ctx = mp.get_context("fork")
-        with ctx.Pool(ncpu()) as pool:
-            it = pool.imap_unordered(_task, roots, chunksize=1)
-            done = 0
-            for o in it:
-                total.merge(o)
-                done += 1
-                if time_cap and time.time() - t0 > time_cap:
-                    capped = True
-                    pool.terminate()
-                    break
+        from . import par
+
+        done = 0
+        for o in par.pmap_unordered(_task, roots, chunksize=1):
+            if isinstance(o, par.WorkerDied):
+                d = Out()
+                d.violate(cfg.prop, f"{cfg.prop}|worker-process-died", f"{o.why} while exploring the subtree below {cfg.labels(o.item)}",
+                          {"engine": "E1", "program": cfg.labels(o.item), "bytes": cfg.data(o.item)}, len(o.item))
+                o = d
+            total.merge(o)
+            done += 1
+            if time_cap and time.time() - t0 > time_cap:
+                capped = True
+                break
         if capped:
             total.stats["subtrees_done"] = done
             total.stats["subtrees_total"] = len(roots)
